@@ -115,12 +115,18 @@ pub fn check_on(c: &Case, ctx: &mut Ctx, ind: &mut Ind) -> Result<(), Failure> {
             fp.f(x);
             (ind.next_scalar(x), RawBar::flat(x, 0.0))
         } else {
-            let b = c.bars[i];
+            let mut b = c.bars[i];
+            // mixed use of both paths on one instance (tele.rs): this step goes through next(close); the
+            // reference sees the one-price bar that the scalar path stands for
+            let sc = k.scalar() && crate::tele::scalar_here();
+            if sc {
+                b = RawBar::flat(b.c, b.v);
+            }
             fp.f(b.h);
             fp.f(b.l);
             fp.f(b.c);
             fp.f(b.v);
-            (ind.next_bar(&b), b)
+            (if sc { ind.next_scalar(b.c) } else { ind.next_bar(&b) }, b)
         };
         let x = bar.c;
         if let Some(&pv) = hist.last() {
